@@ -162,6 +162,8 @@ def replay_walk(g, walk, tid):
                       'restok': restok, 'sendok': sendok, 'exc': len(o['errs'])})
         if drift is None and up and k == 'update':
             mt, mv = obs['tab'], obs['ver']
-            if mt['in']['ipv4'] != ribin or mt['out']['ipv4'] != ribout or any(mv[d][f] != ver[d][f] for d in ver for f in ver[d]):
+            same_in = all(ribin.get(k2) == v2 for k2, v2 in mt['in']['ipv4'].items())
+            same_out = all(ribout.get(k2) == v2 for k2, v2 in mt['out']['ipv4'].items())
+            if not same_in or not same_out or any(mv[d][f] != ver[d][f] for d in ver for f in ver[d]):
                 drift = {'tid': tid, 'step': i, 'ev': ev, 'model': {'tab': mt, 'ver': mv}, 'real': {'ribin': ribin, 'ribout': ribout, 'ver': ver}}
     return lines, drift, i
